@@ -206,7 +206,7 @@ class World(WorldBase):
             "groups": sorted(rng.sample(groups, rng.randint(3, len(groups)))),
             "p_default": rng.choice([0.0, 0.3, 0.7]),
             "p_outfile": rng.choice([0.2, 0.5, 0.8]),
-            "maxN": rng.choice([8, 12, 18]),
+            "maxN": rng.choice([8, 12, 12, 18, 18, 36]),
             "maxT": rng.choice([2, 3, 4]),
             "p_centred": rng.choice([0.1, 0.4, 0.8]),
             "p_reuse": rng.choice([0.3, 0.6, 0.9]),
